@@ -321,20 +321,10 @@ func validCredit(cr string) bool {
 
 func (b *built) newStore(db walletdb.DB, nsName []byte, rng *rand.Rand, cr string) (*liveStore, error) {
 	ls := &liveStore{db: db, ns: nsName}
-	err := walletdb.Update(db, func(tx walletdb.ReadWriteTx) error {
-		ns, err := tx.CreateTopLevelBucket(nsName)
-		if err != nil {
-			return err
-		}
-		if err := wtxmgr.Create(ns); err != nil {
-			return err
-		}
-		ls.s, err = wtxmgr.Open(ns, &chaincfg.TestNet3Params)
-		if err != nil {
-			return err
-		}
-		// insertion order is arbitrary (children may arrive before parents, as from a mempool)
-		for _, k := range rng.Perm(len(b.txs)) {
+	// insertion order is arbitrary (children may arrive before parents, as from a mempool)
+	order := rng.Perm(len(b.txs))
+	insert := func(ns walletdb.ReadWriteBucket, ks []int) error {
+		for _, k := range ks {
 			rec, err := wtxmgr.NewTxRecordFromMsgTx(b.msg[b.txs[k].id], time.Unix(1700000000, 0))
 			if err != nil {
 				return err
@@ -351,8 +341,65 @@ func (b *built) newStore(db walletdb.DB, nsName []byte, rng *rand.Rand, cr strin
 			}
 		}
 		return nil
+	}
+	// The set arrives in two database transactions.  While the second one is still open (its inserts done, not yet
+	// committed) a reader in a transaction of its own asks for the unconfirmed transactions, as the re-broadcast
+	// goroutine may at any moment (Wallet.resendUnminedTxs runs its own walletdb.View).  What that reader is told is not
+	// judged here (it rightly sees the first part only); what matters is that every LATER answer is about the committed
+	// set, whatever an earlier, overlapping call saw.
+	cut := len(order) / 2
+	err := walletdb.Update(db, func(tx walletdb.ReadWriteTx) error {
+		ns, err := tx.CreateTopLevelBucket(nsName)
+		if err != nil {
+			return err
+		}
+		if err := wtxmgr.Create(ns); err != nil {
+			return err
+		}
+		ls.s, err = wtxmgr.Open(ns, &chaincfg.TestNet3Params)
+		if err != nil {
+			return err
+		}
+		return insert(ns, order[:cut])
+	})
+	if err != nil {
+		return ls, err
+	}
+	err = walletdb.Update(db, func(tx walletdb.ReadWriteTx) error {
+		if err := insert(tx.ReadWriteBucket(nsName), order[cut:]); err != nil {
+			return err
+		}
+		done := make(chan struct{})
+		go func() {
+			defer close(done)
+			_ = b.runUnmined(ls)
+		}()
+		<-done
+		return nil
 	})
 	return ls, err
+}
+
+var errAbort = fmt.Errorf("abort")
+
+// abortedRemoval removes transaction k (and its descendants) inside a database transaction, asks for the unconfirmed
+// transactions there, and rolls the transaction back.  Nothing of it may be visible afterwards.
+func (b *built) abortedRemoval(ls *liveStore, k int) {
+	_ = walletdb.Update(ls.db, func(tx walletdb.ReadWriteTx) error {
+		ns := tx.ReadWriteBucket(ls.ns)
+		_, _ = guarded(func() []*wire.MsgTx {
+			rec, err := wtxmgr.NewTxRecordFromMsgTx(b.msg[b.txs[k].id], time.Unix(1700000000, 0))
+			if err != nil {
+				return nil
+			}
+			if err := ls.s.RemoveUnminedTx(ns, rec); err != nil {
+				return nil
+			}
+			_, _ = ls.s.UnminedTxs(ns)
+			return nil
+		})
+		return errAbort
+	})
 }
 
 func (b *built) runUnmined(ls *liveStore) outcome {
@@ -563,6 +610,10 @@ func (r *runner) Exec(op string) (string, string) {
 			return "store-error", fmt.Sprintf("C14 key=UnminedTxs.store-error: %v", err)
 		}
 		for i := 0; i < reps; i++ {
+			if i%2 == 1 && len(b.txs) > 0 {
+				// an aborted database transaction in between (removal of one transaction, a query, rollback)
+				b.abortedRemoval(ls, (i/2)%len(b.txs))
+			}
 			note(judge("UnminedTxs", txs, b.runUnmined(ls), "Store.UnminedTxs"))
 		}
 	}
